@@ -1375,8 +1375,12 @@ class Expression(Term):
             sub_0 = self.args[0].to_python(want_inline_parens=False)
             if self.inline:
                 if sub_0.is_in_parens:
-                    return PythonText(self.op + str(sub_0), is_in_parens=False)
-                return PythonText(self.op + "(" + str(sub_0) + ")", is_in_parens=False)
+                    result = self.op + str(sub_0)
+                else:
+                    result = self.op + "(" + str(sub_0) + ")"
+                if want_inline_parens:
+                    return PythonText("(" + result + ")", is_in_parens=True)
+                return PythonText(result, is_in_parens=False)
             if self.method:
                 if sub_0.is_in_parens or isinstance(self.args[0], ColumnReference):
                     return PythonText(
